@@ -568,7 +568,10 @@ def refundPacket (s : State) (p : RefundPacket) : Except Err State :=
     currency pairs and markets appear. The set itself is unchanged. -/
 def aspenUpgrade (s : State) (pairs : List (String × Nat)) (markets : List (String × Nat)) : State :=
   { s with postAspen := true, valCount := s.vals.length,
-           pairs := pairs, numPairs := pairs.length, nextPairId := pairs.length, markets := some markets }
+           -- the oracle genesis writes each genesis pair's entry and then the two counters; pairs
+           -- that a pre-Aspen CurrencyPairsChange already stored are left in place
+           pairs := pairs.foldl (fun acc p => insert acc p.1 p.2) s.pairs,
+           numPairs := pairs.length, nextPairId := pairs.length, markets := some markets }
 
 /-- The Blackburn upgrade: ICS20 receives are restricted to fee assets and bridge deposits can be
     disabled. -/
